@@ -352,6 +352,8 @@ structure Inv (c : Cache) : Prop where
     ∃ r, c.ranges s = some r ∧ r.min ≤ j ∧ j ≤ r.max
   rmax : ∀ s r, c.ranges s = some r → r.max < c.cells.length ∨ r.max = 0
   pad : 0 < c.cachePad ∧ c.cells.length % c.cachePad = 0
+  /-- the cache is smaller than `math.MaxInt` cells (so `newRange()` is never a real range) -/
+  size : c.cells.length ≤ maxInt
 
 theorem mem_dropSeq {s seq : Nat} {c : Cell} (h : s ∈ (dropSeq seq c).seqs) : s ∈ c.seqs ∧ s ≠ seq := by
   simpa [dropSeq] using h
@@ -362,7 +364,7 @@ theorem slideSeq_inv (c : Cache) (w : Int) (seq : Nat) (low : Int) (h : Inv c) :
   | none => simpa using h
   | some old =>
     simp only
-    refine ⟨by simpa [length_mapFrom] using h.len, ?_, ?_, by simpa [length_mapFrom] using h.pad⟩
+    refine ⟨by simpa [length_mapFrom] using h.len, ?_, ?_, by simpa [length_mapFrom] using h.pad, by simpa [length_mapFrom] using h.size⟩
     · intro j hj s hs0
       have hj' : j < c.cells.length := by simpa [length_mapFrom] using hj
       have hs : s ∈ (evictCell seq (low - w) old j c.cells[j]).seqs := by
@@ -424,7 +426,7 @@ theorem defrag_inv (c : Cache) (h : Inv c)
   unfold defrag
   simp only
   obtain ⟨hlen, hsub⟩ := hm
-  refine ⟨?_, ?_, ?_, by simpa [hlen] using h.pad⟩
+  refine ⟨?_, ?_, ?_, by simpa [hlen] using h.pad, by simpa [hlen] using h.size⟩
   · simp only [hlen]
     split
     · rw [hr]; exact h.len
@@ -458,7 +460,7 @@ structure CurOK (c : Cache) (S : List Tok) : Prop where
 theorem placeTok_inv (c : Cache) (idx : Nat) (t : Tok) (h : Inv c) (hidx : idx < c.cells.length) :
     Inv (placeTok c idx t) := by
   unfold placeTok
-  refine ⟨by simpa using h.len, ?_, ?_, by simpa using h.pad⟩
+  refine ⟨by simpa using h.len, ?_, ?_, by simpa using h.pad, by simpa using h.size⟩
   · intro j hj s hs0
     have hj' : j < c.cells.length := by simpa using hj
     have hs : s ∈ ((c.cells.set idx ⟨t.pos, [t.seq]⟩)[j]'(by simpa using hj')).seqs := hs0
@@ -706,5 +708,390 @@ theorem defragCore_moved (fix : Bool) (cells : List Cell) (rows : List Row) :
   split
   · rw [length_moveRows]; exact h.rlen
   · exact h.rlen
+
+/-! ### the block returned by findStartLoc is free -/
+
+theorem findStartFrom_holes (k : Nat) (pre cells : List Cell) (start count s : Nat)
+    (h : findStartFrom k cells pre.length start count = some s) (hinv : start + count = pre.length)
+    (hpre : ∀ j, start ≤ j → j < pre.length → ((pre ++ cells).getD j Cell.empty).seqs = []) :
+    ∀ j, s ≤ j → j < s + k → ((pre ++ cells).getD j Cell.empty).seqs = [] := by
+  induction cells generalizing pre start count with
+  | nil => simp [findStartFrom] at h
+  | cons c cs ih =>
+    unfold findStartFrom at h
+    have hidx : ((pre ++ c :: cs).getD pre.length Cell.empty) = c := by
+      simp [List.getD_eq_getElem?_getD]
+    have happ : pre ++ c :: cs = (pre ++ [c]) ++ cs := by simp
+    split at h
+    · rename_i hc
+      split at h
+      · cases h
+        intro j hj1 hj2
+        by_cases hjp : j < pre.length
+        · exact hpre j hj1 hjp
+        · have : j = pre.length := by omega
+          subst this; rw [hidx]; exact hc
+      · rw [happ]
+        apply ih (pre ++ [c]) start (count + 1) (by simpa using h) (by simp; omega)
+        intro j hj1 hj2
+        rw [← happ]
+        by_cases hjp : j < pre.length
+        · exact hpre j hj1 hjp
+        · have : j = pre.length := by simp at hj2; omega
+          subst this; rw [hidx]; exact hc
+    · rw [happ]
+      apply ih (pre ++ [c]) (pre.length + 1) 0 (by simpa using h) (by simp)
+      intro j hj1 hj2
+      simp at hj2
+      omega
+
+theorem findStart_holes (cells : List Cell) (k s : Nat) (h : findStart cells k = some s) :
+    ∀ j, s ≤ j → j < s + k → (cells.getD j Cell.empty).seqs = [] := by
+  have := findStartFrom_holes k [] cells 0 0 s (by simpa [findStart] using h) rfl (by intro j _ hj; simp at hj)
+  simpa using this
+
+/-! ### what placement and the unwind do to the cells -/
+
+def placeCells : List Cell → Nat → List Tok → List Cell
+  | cells, _, [] => cells
+  | cells, idx, t :: ts => placeCells (cells.set idx ⟨t.pos, [t.seq]⟩) (idx + 1) ts
+
+theorem place_cells (c : Cache) (idx : Nat) (toks : List Tok) :
+    (place c idx toks).cells = placeCells c.cells idx toks ∧ (place c idx toks).rows = c.rows ∧
+    (place c idx toks).hasShift = c.hasShift ∧ (place c idx toks).hasLayers = c.hasLayers := by
+  induction toks generalizing c idx with
+  | nil => simp [place, placeCells]
+  | cons t ts ih =>
+    have := ih (placeTok c idx t) (idx + 1)
+    simpa [place, placeCells, placeTok] using this
+
+theorem length_placeCells (cells : List Cell) (idx : Nat) (toks : List Tok) :
+    (placeCells cells idx toks).length = cells.length := by
+  induction toks generalizing cells idx with
+  | nil => rfl
+  | cons t ts ih => simp [placeCells, ih]
+
+/-- outside the block nothing changes; inside, the cell is owned by exactly one batch token's
+    sequence at that token's position -/
+theorem getD_placeCells (cells : List Cell) (idx : Nat) (toks : List Tok) (j : Nat)
+    (hfit : idx + toks.length ≤ cells.length) :
+    (j < idx ∨ idx + toks.length ≤ j → (placeCells cells idx toks).getD j Cell.empty = cells.getD j Cell.empty) ∧
+    (idx ≤ j → j < idx + toks.length →
+      ∃ t ∈ toks, (placeCells cells idx toks).getD j Cell.empty = ⟨t.pos, [t.seq]⟩) := by
+  induction toks generalizing cells idx with
+  | nil => simp [placeCells]
+  | cons t ts ih =>
+    simp only [List.length_cons] at hfit
+    have hi := ih (cells.set idx ⟨t.pos, [t.seq]⟩) (idx + 1) (by simp; omega)
+    simp only [placeCells, List.length_cons]
+    constructor
+    · intro hout
+      rw [hi.1 (by omega)]
+      have : idx ≠ j := by omega
+      simp [List.getD_eq_getElem?_getD, List.getElem?_set, this]
+    · intro h1 h2
+      by_cases hj : j = idx
+      · subst hj
+        refine ⟨t, by simp, ?_⟩
+        rw [hi.1 (by omega)]
+        have : j < cells.length := by omega
+        simp [List.getD_eq_getElem?_getD, List.getElem?_set, this]
+      · obtain ⟨u, hu, he⟩ := hi.2 (by omega) (by omega)
+        exact ⟨u, by simp [hu], he⟩
+
+/-- `Remove(seq, p, MaxInt32)` on one cell whose position is a real int32 -/
+def rmInf (seq : Nat) (p : Int) (x : Cell) : Cell :=
+  if seq ∈ x.seqs ∧ p ≤ x.pos then dropSeq seq x else x
+
+/-- all recorded positions are below the `MaxInt32` sentinel -/
+def PosBound (cells : List Cell) : Prop := ∀ x ∈ cells, ∀ s ∈ x.seqs, x.pos < maxInt32
+
+theorem rmCell_inf (seq : Nat) (p : Int) (x : Cell) (hx0 : ∀ s ∈ x.seqs, x.pos < maxInt32) :
+    rmCell seq p maxInt32 (rmOffset p maxInt32) x = rmInf seq p x := by
+  unfold rmCell rmInf
+  by_cases h1 : seq ∈ x.seqs
+  · have hx := hx0 seq h1
+    by_cases h2 : p ≤ x.pos
+    · simp [h1, h2, hx]
+    · have : ¬ x.pos ≥ maxInt32 := by omega
+      simp [h1, h2, this]
+  · simp [h1]
+
+theorem remove_inf (c : Cache) (seq : Nat) (p : Int) (hb : PosBound c.cells) :
+    (remove c seq p maxInt32).1.cells = c.cells.map (rmInf seq p) ∧
+    (remove c seq p maxInt32).1.rows = c.rows ∧ (remove c seq p maxInt32).2 = .ok := by
+  have hflag : (removeCells seq p maxInt32 (rmOffset p maxInt32) c.cells).2 = false := by
+    rw [removeCells_flag]
+    apply List.any_eq_false.mpr
+    intro x hx
+    by_cases hs : seq ∈ x.seqs
+    · have := hb x hx seq hs
+      have h3 : ¬ x.pos ≥ maxInt32 := by omega
+      simp [refuseCell, h3]
+    · simp [refuseCell, hs]
+  have hcells := removeCells_ok seq p maxInt32 _ c.cells hflag
+  have hmap : c.cells.map (rmCell seq p maxInt32 (rmOffset p maxInt32)) = c.cells.map (rmInf seq p) := by
+    apply List.map_congr_left
+    intro x hx
+    exact rmCell_inf seq p x (hb x hx)
+  unfold remove
+  simp only [hflag, Bool.false_eq_true, if_false, hcells, hmap]
+  split <;> simp
+
+theorem posBound_map_rmInf (cells : List Cell) (seq : Nat) (p : Int) (h : PosBound cells) :
+    PosBound (cells.map (rmInf seq p)) := by
+  intro x hx s hs
+  obtain ⟨y, hy, rfl⟩ := List.mem_map.mp hx
+  have hpos : (rmInf seq p y).pos = y.pos := by unfold rmInf; split <;> simp [dropSeq]
+  rw [hpos]
+  unfold rmInf at hs
+  split at hs
+  · exact h y hy s (mem_dropSeq hs).1
+  · exact h y hy s hs
+
+/-- the whole unwind on one cell -/
+def unwCell (b : List Tok) (x : Cell) : Cell := b.foldl (fun x t => rmInf t.seq t.pos x) x
+
+theorem unwind_cells (c : Cache) (b : List Tok) (hb : PosBound c.cells) :
+    (unwind c b).cells = c.cells.map (unwCell b) ∧ (unwind c b).rows = c.rows := by
+  induction b generalizing c with
+  | nil =>
+    have : (fun x => unwCell [] x) = id := by funext x; rfl
+    simp [unwind, this]
+  | cons t ts ih =>
+    obtain ⟨h1, h2, _⟩ := remove_inf c t.seq t.pos hb
+    have hb' : PosBound (remove c t.seq t.pos maxInt32).1.cells := by
+      rw [h1]; exact posBound_map_rmInf _ _ _ hb
+    have := ih (remove c t.seq t.pos maxInt32).1 hb'
+    simp only [unwind, List.foldl_cons] at this ⊢
+    rw [this.1, this.2, h1, h2]
+    simp [unwCell, List.map_map, Function.comp]
+
+theorem unwCell_pos (b : List Tok) (x : Cell) : (unwCell b x).pos = x.pos := by
+  induction b generalizing x with
+  | nil => rfl
+  | cons t ts ih =>
+    simp only [unwCell, List.foldl_cons] at ih ⊢
+    rw [ih]
+    unfold rmInf; split <;> simp [dropSeq]
+
+theorem unwCell_sub (b : List Tok) (x : Cell) : ∀ s ∈ (unwCell b x).seqs, s ∈ x.seqs := by
+  induction b generalizing x with
+  | nil => intro s hs; exact hs
+  | cons t ts ih =>
+    intro s hs
+    simp only [unwCell, List.foldl_cons] at ih hs
+    have := ih _ s hs
+    unfold rmInf at this
+    split at this
+    · exact (mem_dropSeq this).1
+    · exact this
+
+theorem unwCell_drops (b : List Tok) (x : Cell) (t : Tok) (ht : t ∈ b) (hp : t.pos ≤ x.pos) :
+    t.seq ∉ (unwCell b x).seqs := by
+  induction b generalizing x with
+  | nil => simp at ht
+  | cons u us ih =>
+    simp only [unwCell, List.foldl_cons]
+    rcases List.mem_cons.mp ht with rfl | ht'
+    · intro hmem
+      have hsub := unwCell_sub us (rmInf t.seq t.pos x) t.seq (by simpa [unwCell] using hmem)
+      unfold rmInf at hsub
+      split at hsub
+      · exact (mem_dropSeq hsub).2 rfl
+      · rename_i hne; exact hne ⟨hsub, hp⟩
+    · have hpos : (rmInf u.seq u.pos x).pos = x.pos := by unfold rmInf; split <;> simp [dropSeq]
+      have := ih (rmInf u.seq u.pos x) ht' (by rw [hpos]; exact hp)
+      simpa [unwCell] using this
+
+/-- a cell the batch does not reach (no token of one of its sequences at or below its position) is
+    left alone by the unwind -/
+theorem unwCell_id (b : List Tok) (x : Cell) (h : ∀ t ∈ b, t.seq ∈ x.seqs → x.pos < t.pos) : unwCell b x = x := by
+  induction b with
+  | nil => rfl
+  | cons u us ih =>
+    simp only [unwCell, List.foldl_cons]
+    have hu : rmInf u.seq u.pos x = x := by
+      unfold rmInf
+      split
+      · rename_i hc
+        have := h u (by simp) hc.1
+        omega
+      · rfl
+    rw [hu]
+    exact ih (fun t ht => h t (by simp [ht]))
+
+theorem mem_placeCells (cells : List Cell) (idx : Nat) (toks : List Tok) (x : Cell)
+    (h : x ∈ placeCells cells idx toks) : x ∈ cells ∨ ∃ t ∈ toks, x = ⟨t.pos, [t.seq]⟩ := by
+  induction toks generalizing cells idx with
+  | nil => exact Or.inl h
+  | cons t ts ih =>
+    rcases ih _ _ h with h1 | ⟨u, hu, he⟩
+    · rcases List.mem_or_eq_of_mem_set h1 with h2 | h2
+      · exact Or.inl h2
+      · exact Or.inr ⟨t, by simp, h2⟩
+    · exact Or.inr ⟨u, by simp [hu], he⟩
+
+theorem getD_map_lt {α β} (f : α → β) (l : List α) (j : Nat) (h : j < l.length) (d : β) (d' : α) :
+    (l.map f).getD j d = f (l.getD j d') := by
+  simp [List.getD_eq_getElem?_getD, List.getElem?_eq_getElem h]
+
+theorem getD_mem {α} (l : List α) (j : Nat) (h : j < l.length) (d : α) : l.getD j d ∈ l := by
+  simp [List.getD_eq_getElem?_getD, List.getElem?_eq_getElem h]
+
+/-! ### Inv is kept by Put, CopyPrefix and Remove (all outcomes) -/
+
+theorem length_putRows (rows : List Row) (idx : Nat) (ids : List Nat) : (putRows rows idx ids).length = rows.length := by
+  induction ids generalizing rows idx with
+  | nil => rfl
+  | cons a as ih => simp [putRows, ih]
+
+theorem put_inv (c : Cache) (ids : List Nat) (h : Inv c) : Inv (put c ids) :=
+  ⟨by simpa [put, length_putRows] using h.len, h.cover, h.rmax, h.pad, h.size⟩
+
+theorem mem_cpSeqs {src dst s : Nat} {len pos : Int} {seqs : List Nat} (h : s ∈ cpSeqs src dst len pos seqs) :
+    s = dst ∨ s ∈ seqs := by
+  unfold cpSeqs at h
+  simp only at h
+  split at h
+  · rcases List.mem_append.mp h with h | h
+    · right; exact (List.mem_filter.mp h).1
+    · left; simpa using h
+  · right; exact (List.mem_filter.mp h).1
+
+theorem copyPrefix_inv (c : Cache) (src dst : Nat) (len : Int) (h : Inv c) : Inv (copyPrefix c src dst len) := by
+  unfold copyPrefix
+  simp only
+  refine ⟨by simpa using h.len, ?_, ?_, by simpa using h.pad, by simpa using h.size⟩
+  · intro j hj s hs0
+    have hj' : j < c.cells.length := by simpa using hj
+    have hs : s ∈ (cpCell src dst len c.cells[j]).seqs := by simpa using hs0
+    by_cases hsd : s = dst
+    · subst hsd
+      refine ⟨rangeOf (hasSeq s) (c.cells.map (cpCell src s len)), by simp [setRange], ?_⟩
+      exact rangeOf_covers _ _ j (by simpa using hj') (by simpa [hasSeq] using hs)
+    · rcases mem_cpSeqs hs with h1 | h1
+      · exact absurd h1 hsd
+      · obtain ⟨r, hr, hb⟩ := h.cover j hj' s h1
+        exact ⟨r, by simp [setRange, hsd, hr], hb⟩
+  · intro s r hs
+    simp only [setRange] at hs
+    split at hs
+    · cases hs
+      have := rangeOf_max_lt (hasSeq dst) (c.cells.map (cpCell src dst len))
+      simpa using this
+    · simpa using h.rmax s r hs
+
+theorem length_removeCells (seq : Nat) (b e off : Int) (cells : List Cell) :
+    (removeCells seq b e off cells).1.length = cells.length := by
+  induction cells with
+  | nil => rfl
+  | cons c cs ih =>
+    unfold removeCells
+    split
+    · split
+      · simp [ih]
+      · split
+        · split
+          · rfl
+          · simp [ih]
+        · simp [ih]
+    · simp [ih]
+
+/-- `Remove`'s loop never adds an owner to a cell, whether or not it bails out -/
+theorem removeCells_sub (seq : Nat) (b e off : Int) (cells : List Cell) (j : Nat)
+    (hj : j < cells.length) :
+    ∀ s ∈ ((removeCells seq b e off cells).1[j]'(by rw [length_removeCells]; exact hj)).seqs, s ∈ cells[j].seqs := by
+  induction cells generalizing j with
+  | nil => simp at hj
+  | cons c cs ih =>
+    have key : ∀ (hd : Cell) (tl : List Cell) (hl : tl.length = cs.length)
+        (hhd : ∀ s ∈ hd.seqs, s ∈ c.seqs)
+        (htl : ∀ k (hk : k < cs.length), ∀ s ∈ (tl[k]'(by rw [hl]; exact hk)).seqs, s ∈ cs[k].seqs),
+        ∀ (hjj : j < (hd :: tl).length), ∀ s ∈ ((hd :: tl)[j]'hjj).seqs, s ∈ (c :: cs)[j].seqs := by
+      intro hd tl hl hhd htl hjj s hs
+      cases j with
+      | zero => exact hhd s (by simpa using hs)
+      | succ k =>
+        simp only [List.getElem_cons_succ] at hs ⊢
+        exact htl k (by simpa using hj) s hs
+    have hrec : ∀ k (hk : k < cs.length),
+        ∀ s ∈ ((removeCells seq b e off cs).1[k]'(by rw [length_removeCells]; exact hk)).seqs, s ∈ cs[k].seqs :=
+      fun k hk => ih k hk
+    have hlr := length_removeCells seq b e off cs
+    intro s hs
+    unfold removeCells at hs
+    split at hs
+    · split at hs
+      · exact key (dropSeq seq c) _ hlr (fun s hs => (mem_dropSeq hs).1) hrec _ s hs
+      · split at hs
+        · split at hs
+          · exact hs
+          · exact key { c with pos := c.pos + off } _ hlr (fun s hs => hs) hrec _ s hs
+        · exact key c _ hlr (fun s hs => hs) hrec _ s hs
+    · exact key c _ hlr (fun s hs => hs) hrec _ s hs
+
+theorem length_shiftRows (seq : Nat) (frm off : Int) (cells : List Cell) (rows : List Row) :
+    (shiftRows seq frm off cells rows).length = rows.length := by
+  induction cells generalizing rows with
+  | nil => cases rows <;> simp [shiftRows]
+  | cons c cs ih =>
+    cases rows with
+    | nil => simp [shiftRows]
+    | cons r rs => simp [shiftRows, ih]
+
+theorem remove_inv (c : Cache) (seq : Nat) (b e : Int) (h : Inv c) : Inv (remove c seq b e).1 := by
+  have hl := length_removeCells seq b e (rmOffset b e) c.cells
+  have hsub := removeCells_sub seq b e (rmOffset b e) c.cells
+  -- a state with the new cells and the ranges of `seq` recomputed (or dropped when empty)
+  have hcore : ∀ (rows : List Row) (hr : rows.length = c.rows.length) (rg : Option Range)
+      (hrg : rg = some (rangeOf (hasSeq seq) (removeCells seq b e (rmOffset b e) c.cells).1) ∨
+        (rg = none ∧ rangeOf (hasSeq seq) (removeCells seq b e (rmOffset b e) c.cells).1 = Range.new)),
+      Inv { c with cells := (removeCells seq b e (rmOffset b e) c.cells).1, rows := rows,
+                   ranges := setRange c.ranges seq rg } := by
+    intro rows hr rg hrg
+    refine ⟨by simp only [hl, hr]; exact h.len, ?_, ?_, by simpa [hl] using h.pad, by simpa [hl] using h.size⟩
+    · intro j hj s hs
+      have hj' : j < c.cells.length := by rw [← hl]; exact hj
+      by_cases hseq : s = seq
+      · subst hseq
+        have hc := rangeOf_covers (hasSeq s) _ j hj (by simpa [hasSeq] using hs)
+        rcases hrg with hrg | ⟨_, hnew⟩
+        · exact ⟨_, by simp [setRange, hrg], hc⟩
+        · exfalso
+          have := rangeOf_new _ _ (by rw [hl]; exact h.size) hnew j hj
+          simp only [hasSeq, decide_eq_false_iff_not] at this
+          exact this hs
+      · obtain ⟨r, hr', hb⟩ := h.cover j hj' s (hsub j hj' s hs)
+        exact ⟨r, by simp [setRange, hseq, hr'], hb⟩
+    · intro s r hs
+      simp only [hl]
+      simp only [setRange] at hs
+      split at hs
+      · rcases hrg with hrg | ⟨hrg, _⟩
+        · rw [hrg] at hs; cases hs
+          have := rangeOf_max_lt (hasSeq seq) (removeCells seq b e (rmOffset b e) c.cells).1
+          rw [hl] at this; exact this
+        · rw [hrg] at hs; cases hs
+      · exact h.rmax s r hs
+  unfold remove
+  simp only
+  split
+  · -- shared: partial mutation, ranges untouched
+    refine ⟨by simp only [hl]; exact h.len, ?_, by simpa [hl] using h.rmax, by simpa [hl] using h.pad, by simpa [hl] using h.size⟩
+    intro j hj s hs
+    have hj' : j < c.cells.length := by rw [← hl]; exact hj
+    exact h.cover j hj' s (hsub j hj' s hs)
+  · split
+    · rename_i hnew
+      exact hcore c.rows rfl none (Or.inr ⟨rfl, hnew⟩)
+    · split
+      · exact hcore c.rows rfl _ (Or.inl rfl)
+      · split
+        · exact hcore c.rows rfl _ (Or.inl rfl)
+        · refine hcore _ ?_ _ (Or.inl rfl)
+          split
+          · exact length_shiftRows _ _ _ _ _
+          · rfl
 
 end OllamaVerif.Causal
